@@ -608,6 +608,8 @@ def main():
     ctx = vlib.Ctx(PID)
     if not ctx.replay:
         vlib.proof_phase(ctx)
+        # the same theorems over the bodies translated from static_list.hpp on this run (Gen/GenStaticList.v)
+        vlib.proof_phase_extra(ctx, 'Properties_C18_source')
     model, log1 = vlib.ocaml_driver('catalog_model', 'Extract/ExtractCatalog.vo', ['ocaml/catalog_driver.ml'])
     impl, log2 = vlib.build_cpp('h3_catalog', ['harness/h3/catalog_driver.cpp'])
     objs, log3 = vlib.build_cpp('h3_catalog_objects', ['harness/h3/catalog_objects.cpp'], flags=OBJ_FLAGS)
@@ -863,7 +865,10 @@ def main():
         'with placement new in zeroed storage, compiled with -fno-lifetime-dse (corpus/C18/demo_heap_registration.cpp)',
         'method::add_function objects have no destructor: the definition record lives until its function-local '
         'static is destroyed at exit; the object-mode oracle encodes this behaviour (corpus/C18/demo_add_function.cpp)',
-        'the Coq model is tied to static_list.hpp by differential runs on the cases counted here, not by translation',
+        'the Coq model is tied to static_list.hpp twice: the bodies of push_back / remove / clear / iterators / empty are translated '
+        'from the header on every run (translators/staticlist.py -> Gen/GenStaticList.v) and proved equal to the model '
+        '(Properties_C18_source.v; trusted: the parser/lowering and the semantics Model/MiniPtr.v gives the pointer subset), '
+        'and the real static_list and registration objects are run against the extracted model on the cases counted here',
     ]
     vlib.finish(ctx, cov, assumptions=assumptions)
 
